@@ -154,6 +154,9 @@ func (r *Report) Finish() int {
 	}
 
 	evDir := filepath.Join(verifDir, "evidence")
+	if d := os.Getenv("VERIF_EVDIR"); d != "" {
+		evDir = d // scratch runs against seeded variants must not overwrite the committed evidence
+	}
 	os.MkdirAll(evDir, 0o755)
 	violPath := filepath.Join(evDir, r.Prop+".violations.json")
 	os.Remove(violPath)
